@@ -42,6 +42,27 @@ for i := range len(arr) {
 	YIELD(i + arr[i])
 }
 RETNIL`, "range:array"),
+		G("range-untyped-constant-assigned-to-typed-key", `
+var i int64 = -1
+for i = range 3 {
+	YIELD(int(i))
+}
+YIELD(int(i))
+var u uint8
+for u = range 2 {
+	YIELD(int(u) + 10)
+}
+type count int32
+var c count
+for c = range 2 {
+	YIELD(int(c) + 20)
+}
+const lim = 2
+var j int16
+for j = range lim {
+	YIELD(int(j) + 30)
+}
+RETNIL`, "range:int-const-typed-key"),
 		G("range-typed-int", `
 var n uint8 = 3
 for i := range n {
